@@ -222,7 +222,9 @@ KERNELS = [
     [((0, 1), 0), ((0, 1), 1), ((1, 2), 2), ((3,), 3)],
     [((1,), 0), ((0,), 1), ((0, 2), 2), ((2,), 3), ((3, 4), 4)],
     [((0,), 0), ((0,), 1), ((1,), 2), ((2,), 0), ((4,), 4), ((4, 0), 5)],
+    [((0,), 0), ((1,), 1), ((2,), 2), ((3,), 3), ((0, 1), 4)],       # four self loops, all latencies equal (ties)
 ]
+EQUAL_LAT = {3}
 PERMS4 = []
 
 
@@ -234,7 +236,7 @@ def _perms(n):
 def _build(kidx):
     kernel = []
     for i, (rs, w) in enumerate(KERNELS[kidx]):
-        kernel.append(iform(i + 1, src=[class_reg("x86", c) for c in rs], dst=[class_reg("x86", w)], lat=1 << i))
+        kernel.append(iform(i + 1, src=[class_reg("x86", c) for c in rs], dst=[class_reg("x86", w)], lat=(2 if kidx in EQUAL_LAT else 1 << i)))
     return kernel
 
 
@@ -264,12 +266,12 @@ CORES = [1, 2, 3, 4, 7, 16]
 
 def merge_order(kidx: int, ci: int, perm: int) -> bool:
     """
-    pre: 0 <= kidx < 3 and 0 <= ci < 6 and 0 <= perm < 24
+    pre: 0 <= kidx < 4 and 0 <= ci < 6 and 0 <= perm < 24
     post: _
     """
     if skip(locals()):
         return True
-    k, c = pick(kidx, 3), CORES[pick(ci, 6)]
+    k, c = pick(kidx, 4), CORES[pick(ci, 6)]
     pi = pick(perm, 24)
     n = min(c, 4)
     perms = _perms(n)
@@ -328,7 +330,7 @@ CELLS = {
                     "bound": "E2 (z3 QF_BVFP): int((k-1)/c) == (k-1)//c in IEEE double arithmetic for k <= 256, c <= 64", "budget": {"quick": 170}},
     "float_lemma_full": {"kind": "smt", "fn": lambda b: _float_lemma(b, 4096, 256), "replay": float_lemma_replay, "tiers": ("thorough",),
                          "bound": "same for k <= 4096, c <= 256", "budget": {"thorough": 1200}},
-    "merge_order": {"fn": merge_order, "bound": "3 kernels with overlapping cycles (4-6 instructions, threshold lowered) x cpu_count in {1,2,3,4,7,16} x every publication order of the first 4 workers", "budget": {"quick": 170, "thorough": 600}},
+    "merge_order": {"fn": merge_order, "bound": "4 kernels with overlapping cycles and with several equal-latency cycles (4-6 instructions, threshold lowered) x cpu_count in {1,2,3,4,7,16} x every publication order of the first 4 workers", "budget": {"quick": 170, "thorough": 600}},
     "real_processes": {"fn": real_processes, "bound": "concrete witness with real multiprocessing: 52-line kernels x 6 rotations vs the sequential search", "budget": {"quick": 170, "thorough": 600}},
 }
 
